@@ -18,3 +18,37 @@ package placement
 //@   at[rejectclears] call objects.Application.SetQueuePath#2: assert arg0 == app && arg1 == "" && queueName == ""
 //@   at[errorclears] call objects.Application.SetQueuePath#1: assert arg0 == app && arg1 == ""
 //@   ensures[rejected] err != nil ==> app.queuePath == ""
+
+// ---------------------------------------------------------------- rule implementations
+
+// a rule only produces a queue name on a path where its own filter admitted the application's user; fadmit names the
+// answer of that filter for this application (one filter per rule, one user per application)
+//@ spec abstract fadmit(a *objects.Application) bool
+
+//@ func (tr *tagRule) placeApplication(app *objects.Application, queueFn func(string) *objects.Queue) (q string, err error)
+//@   props C17
+//@   sweep
+//@   mode nopanic=off
+//@   at[filter] call placement.Filter.allowUser#1 after: assume ret <==> fadmit(app)
+//@   ensures[admitted] q != "" ==> fadmit(app) && err == nil
+
+//@ func (ur *userRule) placeApplication(app *objects.Application, queueFn func(string) *objects.Queue) (q string, err error)
+//@   props C17
+//@   sweep
+//@   mode nopanic=off
+//@   at[filter] call placement.Filter.allowUser#1 after: assume ret <==> fadmit(app)
+//@   ensures[admitted] q != "" ==> fadmit(app) && err == nil
+
+//@ func (pr *providedRule) placeApplication(app *objects.Application, queueFn func(string) *objects.Queue) (q string, err error)
+//@   props C17
+//@   sweep
+//@   mode nopanic=off
+//@   at[filter] call placement.Filter.allowUser#1 after: assume ret <==> fadmit(app)
+//@   ensures[admitted] q != "" ==> fadmit(app) && err == nil
+
+//@ func (fr *fixedRule) placeApplication(app *objects.Application, queueFn func(string) *objects.Queue) (q string, err error)
+//@   props C17
+//@   sweep
+//@   mode nopanic=off
+//@   at[filter] call placement.Filter.allowUser#1 after: assume ret <==> fadmit(app)
+//@   ensures[admitted] q != "" ==> fadmit(app) && err == nil
